@@ -234,12 +234,23 @@ func famStress(o *Out, r R, tier string) {
 	go func() { // the single writer walking the cycle
 		defer wg.Done()
 		rc := func(c *cors.Config) {
+			want := "nil"
 			if c == nil {
 				m.Reconfigure(nil)
-				return
+			} else {
+				cc := cloneCfg(*c)
+				m.Reconfigure(&cc)
+				ref, _ := cors.NewMiddleware(cloneCfg(*c))
+				want = str(cfgSX(ref.Config()))
 			}
-			cc := cloneCfg(*c)
-			m.Reconfigure(&cc)
+			// no other writer exists: Config() must now be the normal form of what was just installed
+			got := "nil"
+			if k := m.Config(); k != nil {
+				got = str(cfgSX(k))
+			}
+			if got != want {
+				bad.Store("Config() right after Reconfigure returned the normal form of an older state: " + got)
+			}
 		}
 		for {
 			select {
@@ -441,6 +452,23 @@ func famAlias(o *Out, r R, tier string) {
 		for k := 0; k < 6; k++ {
 			probes = append(probes, genRequest(&c1, r))
 		}
+		var warm []reqT // successful-looking single-line preflights whose values later probes repeat on their FIRST field line
+		for _, c := range []*cors.Config{&c1, &c2} {
+			mo := matchingOrigins(c)
+			if len(mo) == 0 {
+				mo = []string{"https://example.com"}
+			}
+			for _, h := range c.RequestHeaders {
+				if h == "*" {
+					continue
+				}
+				lh := strings.ToLower(h)
+				warm = append(warm, reqT{method: "OPTIONS", hdrs: http.Header{"Origin": {mo[0]}, "Access-Control-Request-Method": {"GET"}, "Access-Control-Request-Headers": {lh}}})
+				probes = append(probes,
+					reqT{method: "OPTIONS", hdrs: http.Header{"Origin": {mo[0]}, "Access-Control-Request-Method": {"GET"}, "Access-Control-Request-Headers": {lh, "x-evil"}}},
+					reqT{method: "OPTIONS", hdrs: http.Header{"Origin": {mo[0]}, "Access-Control-Request-Method": {"GET"}, "Access-Control-Request-Headers": {lh, lh}}})
+			}
+		}
 		pre := genPre(r, false)
 		baseline := func(m *cors.Middleware) []string {
 			out := make([]string, len(probes))
@@ -505,6 +533,16 @@ func famAlias(o *Out, r R, tier string) {
 			}
 		}
 		check("handler-mutating-headers-in-place")
+		// 3b. plain request history: earlier (successful) requests must not change how later ones are answered
+		for _, m := range []*cors.Middleware{m1, &m2} {
+			for _, q := range warm {
+				serveOnce(m, q, http.Header{})
+			}
+			for j := 0; j < 8; j++ {
+				serveOnce(m, genRequest(&c1, r), genPre(r, false))
+			}
+		}
+		check("request-history")
 		// 4. provenance of every installed slice, compared with the model's tags
 		for j := 0; j < 10; j++ {
 			q := genRequest(&c1, r)
@@ -665,10 +703,18 @@ func famPanic(o *Out, r R, tier string) {
 			var err error
 			m, err = cors.NewMiddleware(cloneCfg(c))
 			if err != nil {
+				cnt := 0
 				for range cfgerrors.All(err) {
+					cnt++
 				}
-				for range cfgerrors.All(err) {
-					break
+				for k := 1; k <= cnt; k++ { // leave the loop at every position
+					i := 0
+					for range cfgerrors.All(err) {
+						i++
+						if i == k {
+							break
+						}
+					}
 				}
 			} else {
 				_ = m.Config()
@@ -828,6 +874,19 @@ func famAlloc(o *Out, r R, tier string) {
 						l[i] = "x-a"
 					}
 					q.hdrs["Access-Control-Request-Headers"] = l
+				case "acrh-lines-upper":
+					l := make([]string, n)
+					for i := range l {
+						l[i] = "X-Evil"
+					}
+					q.hdrs["Access-Control-Request-Headers"] = l
+				case "acrh-lines-valid":
+					l := make([]string, n)
+					for i := range l {
+						l[i] = ""
+					}
+					l[0] = "x-a"
+					q.hdrs["Access-Control-Request-Headers"] = l[:min(n, 16)]
 				case "acrh-ows":
 					q.hdrs["Access-Control-Request-Headers"] = []string{strings.Repeat(" ", n) + "x-a"}
 				case "actual-origin-len":
@@ -837,7 +896,7 @@ func famAlloc(o *Out, r R, tier string) {
 				}
 				return q
 			}
-			for _, kind := range []string{"origin-len", "origin-values", "origin-upper", "acrm-len", "acrm-values", "acrpn-values", "acrh-elems-valid", "acrh-elems", "acrh-elems-upper", "acrh-elems-mixed", "acrh-len", "acrh-lines", "acrh-ows", "actual-origin-len", "actual"} {
+			for _, kind := range []string{"origin-len", "origin-values", "origin-upper", "acrm-len", "acrm-values", "acrpn-values", "acrh-elems-valid", "acrh-elems", "acrh-elems-upper", "acrh-elems-mixed", "acrh-len", "acrh-lines", "acrh-lines-upper", "acrh-lines-valid", "acrh-ows", "actual-origin-len", "actual"} {
 				base := allocsFor(m, mk(kind, 1))
 				worst, at := base, 1
 				for _, n := range sizes[1:] {
